@@ -7,7 +7,8 @@ META = dict(
     bounds=dict(
         quick="real RealtimeDispatcher on a virtual-time asyncio loop, horizon 0.3 virtual s (30 loop iterations of "
               "10 ms); shapes (A: 2 events + 1 job) and (A: 1 event, B: 1 event, 1 job): three symbolic instants "
-              "(microseconds; also A: 1 event + 2 jobs, the second job lasting 6x longer; and A: 1 event + 1 job whose time is given in UTC, UTC+2 or UTC-3) in [start - 30 ms, start + 60 ms] (past, future, out of order within a source), and A: 2 "
+              "(microseconds; also A: 1 event + 2 jobs, the second job lasting 6x longer; and A: 1 event + 1 job whose time is given in UTC, UTC+2 or UTC-3; and 6 jobs, three of them "
+              "an hour later) in [start - 30 ms, start + 60 ms] (past, future, out of order within a source), and A: 2 "
               "events in [start - 50 ms, start + 100 ms]; handler duration from {0, 30 ms}; one idle handler; "
               "max_concurrent symbolic in 1..2",
         thorough="adds (A: 2, B: 1, 1 job) with four symbolic instants and A: 3 events in the wide window"),
@@ -32,6 +33,9 @@ def jobs(tier):
               dict(nev_a=1, nev_b=0, njobs=2, max_mc=2, window_ms=w, horizon=0.3, long_last_job=True), **big),
           Job("A1 J1, the job's time given in another time zone", "realtime_timing",
               dict(nev_a=1, nev_b=0, njobs=1, max_mc=1, window_ms=w, horizon=0.3, job_zones=True), **big),
+          Job("J6: three jobs due within the horizon, three an hour later, every scheduling order of their times",
+              "realtime_timing", dict(nev_a=0, nev_b=0, njobs=6, max_mc=1, window_ms=(0, 30), horizon=0.3, idle=False,
+                                      far_jobs=(1, 4, 5)), **big),
           Job("A3 (three events of one source)", "realtime_timing",
               dict(nev_a=3, nev_b=0, njobs=0, max_mc=1, window_ms=w, horizon=0.3, idle=False), **big),
           Job("A2 only, no idle handler", "realtime_timing", dict(nev_a=2, nev_b=0, njobs=0, max_mc=1, idle=False),
